@@ -15,7 +15,12 @@
 import json, os, shutil, subprocess, sys, tempfile, time, glob
 
 ENV = dict(os.environ, GOFLAGS="-mod=mod", GOPROXY="off", GOSUMDB="off", GOTOOLCHAIN="local")
-SEEDED = "/verif/seeded"
+ROOT = os.path.dirname(os.path.abspath(__file__))
+SEEDED = os.path.join(ROOT, "seeded")
+# VERIF_REPO: the tree the changes are applied to and the checks run against (default /repo; a background run
+# started with `vp run --with-repo` passes its private snapshot, so that /repo itself is never modified)
+REPO = os.environ.get("VERIF_REPO") or os.environ.get("VP_RUN_REPO") or "/repo"
+ENV["VERIF_REPO"] = REPO
 
 
 def sh(cmd, cwd=None, timeout=1800):
@@ -97,14 +102,16 @@ def run(ids):
     names = sorted(n for n in os.listdir(SEEDED) if os.path.isdir(os.path.join(SEEDED, n)))
     if ids:
         names = [n for n in names if n in ids or n.split("-")[0] in ids]
-    rc, out = sh("git -C /repo status --porcelain")
+    rc, out = sh(f"git -C {REPO} status --porcelain")
     if out.strip():
-        print("refusing: /repo has local changes:\n" + out)
+        print(f"refusing: {REPO} has local changes:\n" + out)
         sys.exit(2)
+    if not os.path.exists(os.path.join(ROOT, "lean", ".lake", "build", "bin", "driver")):
+        sh(f"{ROOT}/check --setup", timeout=3600)
     for n in names:
         d = os.path.join(SEEDED, n)
         prop = n.split("-")[0]
-        rc, out = sh(f"git -C /repo apply {d}/patch.diff")
+        rc, out = sh(f"git -C {REPO} apply {d}/patch.diff")
         entry = {"property": prop}
         if rc != 0:
             entry["error"] = "patch does not apply to the current /repo: " + out[-300:]
@@ -114,7 +121,7 @@ def run(ids):
         try:
             for tier in TIERS:
                 t0 = time.time()
-                rc, out = sh(f"/verif/check {prop} --tier {tier}", timeout=7200)
+                rc, out = sh(f"{ROOT}/check {prop} --tier {tier}", timeout=7200)
                 lines = [l for l in out.splitlines() if l.startswith("VIOLATION") or "failing input" in l or "obligation" in l.lower()]
                 entry[tier] = {"exit": rc, "seconds": round(time.time() - t0, 1), "lines": lines[:8]}
                 if rc != 0:
@@ -122,13 +129,15 @@ def run(ids):
             entry["detected"] = any(entry.get(t, {}).get("exit") == 1 for t in ("quick", "thorough"))
             entry["detected_by"] = next((t for t in ("quick", "thorough") if entry.get(t, {}).get("exit") == 1), None)
         finally:
-            sh("git -C /repo checkout -- . && git -C /repo clean -fdq")
+            rc_, out_ = sh(f"git -C {REPO} checkout -- . && git -C {REPO} clean -fdq")
+            if rc_ != 0:    # a snapshot that is not a git tree
+                sh(f"cd {REPO} && git apply -R {d}/patch.diff")
         results[n] = entry
         print(n, "DETECTED by " + entry["detected_by"] if entry["detected"] else "MISSED", json.dumps(entry.get(entry["detected_by"] or TIERS[-1], {}).get("lines", []))[:300])
         sys.stdout.flush()
         json.dump(results, open(results_path, "w"), indent=1, sort_keys=True)
     # leave the generated facts and binaries matching the clean tree again
-    sh("/verif/check --setup", timeout=3600)
+    sh(f"{ROOT}/check --setup", timeout=3600)
 
 
 TIERS = ("quick", "thorough")
